@@ -769,6 +769,11 @@ from .measurement_c import MS
 from .db_model import in_stable_time_order
 
 
+def valid_after_read(db):
+    """C06: with automatic indexing on, any read leaves the index valid (known finding KF-20 for len()/iteration, which are not wrapped by read_op)"""
+    return [("index_valid_after_read_when_auto", z3.Implies(db.t["_auto_index"].t, db.t["_index"].t["_valid"].t))]
+
+
 def name_only(name):
     """the per-measurement views compare the measurement with the handle's name directly (`== self._name`)"""
     return lambda p: meas(p) == name
@@ -796,7 +801,7 @@ class _db_iter(Contract):
 
     @staticmethod
     def ensures(c):
-        return _db_iter._spec(c, c.result.t, l_len(c.self.t["_storage"].t["items"].t))
+        return _db_iter._spec(c, c.result.t, l_len(c.self.t["_storage"].t["items"].t)) + valid_after_read(c.self)
 
 
 @contract("tinyflux.measurement.Measurement.__iter__")
@@ -830,7 +835,7 @@ class _ms_iter(Contract):
 
     @staticmethod
     def ensures(c):
-        return _ms_iter._spec(c, c.result.t, l_len(c.self.t["_db"].t["_storage"].t["items"].t), c.wit["src"])
+        return _ms_iter._spec(c, c.result.t, l_len(c.self.t["_db"].t["_storage"].t["items"].t), c.wit["src"]) + valid_after_read(c.self.t["_db"])
 
 
 @contract("tinyflux.measurement.Measurement.__len__")
@@ -870,7 +875,7 @@ class _ms_len(Contract):
 
     @staticmethod
     def ensures(c):
-        return [("non_negative", c.result.t >= 0)] + _ms_len._spec(c, c.result.t, l_len(c.self.t["_db"].t["_storage"].t["items"].t), c.wit["src"])
+        return [("non_negative", c.result.t >= 0)] + _ms_len._spec(c, c.result.t, l_len(c.self.t["_db"].t["_storage"].t["items"].t), c.wit["src"]) + valid_after_read(c.self.t["_db"])
 
 
 @contract("tinyflux.measurement.Measurement.all")
@@ -908,4 +913,4 @@ class _ms_all(Contract):
             ("no_duplicates", forall([a, b], z3.Implies(z3.And(0 <= a, a < b, b < L), src(a) != src(b)), patterns=[z3.MultiPattern(src(a), src(b))])),
             ("every_point_of_the_name", forall([i], z3.Implies(z3.And(0 <= i, i < n, S.Tr(i), meas(dec(l_at(items, i))) == nm), z3.Exists([a], z3.And(S.Tr(a), 0 <= a, a < L, src(a) == i), patterns=[S.Tr(a), src(a)])), patterns=[l_at(items, i)])),
             ("order", z3.If(c.sorted.t, in_stable_time_order(R, src, L), in_storage_order(src, L))),
-        ]
+        ] + valid_after_read(c.self.t["_db"])
